@@ -562,6 +562,32 @@ class Tr:
                 n += 1
         return n
 
+    def bookkeeping_only(self, s):
+        """a statement that can stand before the breaker entry block without weakening "the breaker is asked before the
+        cache and the agents": an assignment to a local or to a NON-breaker attribute of self whose right-hand side calls
+        nothing but pure builtins and reads no breaker field, no method, no agent and not the cache (request counters,
+        statistics such as the longest prompt seen)"""
+        if not isinstance(s, (ast.Assign, ast.AugAssign, ast.AnnAssign)) or self.touches_breaker(s):
+            return False
+        targets = s.targets if isinstance(s, ast.Assign) else [s.target]
+        for t in targets:
+            if not (isinstance(t, ast.Name) or (is_self(t) and t.attr not in FIELDS and t.attr not in CFG)):
+                return False
+        hidden = set(FIELDS) | set(CFG) | set(self.fns) | {"executor", "assessor", "_cache", "_lock", "budget"}
+        for x in ast.walk(s):
+            if isinstance(x, ast.Call):
+                if not (isinstance(x.func, ast.Name) and x.func.id in (PURE_FUNCS | {"max", "min", "abs", "getattr"})):
+                    return False
+                if x.func.id == "getattr" and not (len(x.args) in (2, 3) and isinstance(x.args[1], ast.Constant)
+                                                   and isinstance(x.args[1].value, str) and x.args[1].value not in hidden):
+                    return False
+            if is_self(x) and x.attr in hidden:
+                return False
+            if isinstance(x, (ast.Lambda, ast.ListComp, ast.SetComp, ast.DictComp, ast.GeneratorExp, ast.Await, ast.Yield,
+                              ast.NamedExpr)):
+                return False
+        return True
+
     def analyse_run(self):
         """locate the blocks of run() and resolve the roles of the private methods by call graph"""
         fn = self.fns.get("run")
@@ -625,6 +651,7 @@ class Tr:
                         or (isinstance(s, ast.Assign) and not self.touches_breaker(s) and "self" not in ast.unparse(s.value)
                             and all(isinstance(t, ast.Name) for t in s.targets))
                         or (isinstance(s, ast.AugAssign) and is_self(s.target, "_total_requests"))
+                        or self.bookkeeping_only(s)
                         for s in before)
         res["entry_first"] = first
         others = 0
